@@ -913,13 +913,15 @@ def exec (p : Prog) : Nat → Task → VmState → VmState × Except RunErr (Opt
         if s.stack.count < arity then fail s .missingArgument else
         let fr : Frame := { src := pos, dst := endp, stackOffset := s.stack.count - arity, closure := closure }
         if s.frames.length + 1 > s.frameCap then fail s .callStackOverflow else
-        if s.frames.length + 2 > s.frameCap then fail { s with frames := s.frames ++ [fr] } .callStackOverflow else
+        -- (repaired) `run_function` pops the call stack back to its entry depth however the callee ended:
+        -- the state has the frames restored, the error record keeps the frames at the time of the failure
+        if s.frames.length + 2 > s.frameCap then (s, .error ⟨.callStackOverflow, 0, s.frames ++ [fr]⟩) else
         match exec p gas (.loop pos) { s with frames := s.frames ++ [fr, fr] } with
         | (s', .ok _) =>
-          let s' := { s' with frames := s'.frames.dropLast }
+          let s' := { s' with frames := s'.frames.take s.frames.length }
           let (st, v) := s'.stack.pop
           ({ s' with stack := st }, .ok (some v))
-        | (s', .error e) => (s', .error e)
+        | (s', .error e) => ({ s' with frames := s'.frames.take s.frames.length }, .error e)
     match f with
     | .obj a =>
       match s.heap.get a with
